@@ -435,6 +435,18 @@ impl LogInnerManager {
             .seek(SeekFrom::Start(self.data_cursor))
             .await?;
         self.data_file.flush().await?;
+        // the last record changed: its term is reported by get_last_index_info and handed to the next file
+        self.last_term = self.header.last_term;
+        if self.msg_count > 0 {
+            let split_off_index = self.split_off_index;
+            // read_records hides everything below split_off_index
+            self.split_off_index = self.start_index;
+            let logs = self.read_records(end_index - 1, end_index).await;
+            self.split_off_index = split_off_index;
+            if let Some(r) = logs?.last() {
+                self.last_term = r.term;
+            }
+        }
         Ok(())
     }
 
